@@ -51,6 +51,7 @@ import (
 	"time"
 
 	"github.com/cnotch/ipchub/media"
+	"github.com/cnotch/ipchub/utils"
 	"github.com/gorilla/websocket"
 	"pgregory.net/rapid"
 	"verif/harness/lib/evid"
@@ -278,9 +279,41 @@ type wplan struct {
 	log *wlog
 }
 
-var wireKinds = []string{"tcp", "udp", "ws", "wsp", "httpflv", "wsflv"}
+var wireKinds = []string{"tcp", "udp", "mcast", "ws", "wsp", "httpflv", "wsflv"}
+
+// multicast: the member of a RECORD-published stream's multicast proxy (SETUP
+// RTP/AVP;multicast). Usable only where multicast loops back on this host.
+var (
+	wireMcastOnce sync.Once
+	wireMcastErr  error
+)
+
+func wireMulticast() bool {
+	wireMcastOnce.Do(func() {
+		wireMcastErr = rtspc.MulticastProbe()
+		if wireMcastErr != nil {
+			evid.Note("multicast unavailable on this host, the multicast-proxy transport is skipped: %v", wireMcastErr)
+			return
+		}
+		// ipchub hands out groups 235.0.0.0+n and ports 16666+n from a per-process counter:
+		// several check processes on one host would share groups. Start this process
+		// somewhere of its own in the 2^24 groups / 23 k ports.
+		h := uint32(os.Getpid())*2654435761 + uint32(time.Now().UnixNano())
+		for i := uint32(0); i < h%(1<<22); i++ {
+			utils.Multicast.NextIP()
+		}
+		for i := uint32(0); i < (h>>8)%20000; i++ {
+			utils.Multicast.NextPort()
+		}
+	})
+	return wireMcastErr == nil
+}
 
 func wireKindEnabled(k string) bool {
+	if k == "mcast" && !wireMulticast() {
+		evid.Class("wire: multicast unavailable - multicast-proxy members skipped")
+		return false
+	}
 	if only := os.Getenv("VERIF_WIRE_KINDS"); only != "" { // development aid
 		return strings.Contains(","+only+",", ","+k+",")
 	}
@@ -305,6 +338,13 @@ func genWirePlan(t *rapid.T) *wplan {
 	nc := rapid.SampledFrom([]int{1, 2, 2, 2, 3, 3, 3}).Draw(t, "clients")
 	for i := 0; i < nc; i++ {
 		c := wclientPlan{Kind: rapid.SampledFrom(kinds).Draw(t, "kind"), DetachAt: -1}
+		if i > 0 && pl.Publisher == "record" && wireKindEnabled("mcast") && rapid.IntRange(0, 9).Draw(t, "anotherMember") < 4 {
+			for _, e := range pl.Clients { // multicast members come in groups: they share one proxy
+				if e.Kind == "mcast" {
+					c.Kind = "mcast"
+				}
+			}
+		}
 		switch rapid.IntRange(0, 3).Draw(t, "attachWhere") {
 		case 0:
 			c.AttachAt = 0
@@ -334,6 +374,35 @@ func genWirePlan(t *rapid.T) *wplan {
 			}
 		}
 		pl.Clients = append(pl.Clients, c)
+		if c.Kind == "mcast" {
+			pl.Publisher = "record" // only a stream published through RECORD (or pulled) has a multicast proxy
+		}
+	}
+	// several members: often the one that started the proxy leaves while another stays
+	var members []int
+	for i, c := range pl.Clients {
+		if c.Kind == "mcast" {
+			members = append(members, i)
+		}
+	}
+	if len(members) >= 2 && rapid.Bool().Draw(t, "starterLeaves") {
+		a := members[len(members)-1] // an audience client (index > 0)
+		minOther, maxOther := n+1, -1
+		for _, i := range members {
+			if i != a {
+				if pl.Clients[i].AttachAt < minOther {
+					minOther = pl.Clients[i].AttachAt
+				}
+				if pl.Clients[i].AttachAt > maxOther {
+					maxOther = pl.Clients[i].AttachAt
+				}
+			}
+		}
+		if minOther > 0 && maxOther+1 <= n {
+			pl.Clients[a].AttachAt = rapid.IntRange(0, minOther-1).Draw(t, "starterAttachAt")
+			pl.Clients[a].DetachAt = rapid.IntRange(maxOther+1, n).Draw(t, "starterDetachAt")
+			pl.Clients[a].Teardown = rapid.Bool().Draw(t, "starterTeardown")
+		}
 	}
 	return pl
 }
@@ -434,6 +503,9 @@ type wclient struct {
 	tornDown bool // a TEARDOWN was sent: one response is expected
 }
 
+// datagram: media arrives as datagrams, one socket per ipchub channel.
+func (c *wclient) datagram() bool { return c.pl.Kind == "udp" || c.pl.Kind == "mcast" }
+
 func (c *wclient) flvKind() bool { return c.pl.Kind == "httpflv" || c.pl.Kind == "wsflv" }
 
 // subscribed reports whether packets of ipchub channel ch are sent to this client.
@@ -452,6 +524,9 @@ func (c *wclient) subscribed(ch byte) bool {
 
 func (c *wclient) transportHeader(track int) (string, error) {
 	a, b := c.pl.Chans[2*track], c.pl.Chans[2*track+1]
+	if c.pl.Kind == "mcast" {
+		return "RTP/AVP;multicast", nil // group and ports come with the answer
+	}
 	if c.pl.Kind == "udp" {
 		for k := 0; k < 2; k++ {
 			u, err := net.ListenUDP("udp4", &net.UDPAddr{IP: net.IPv4(127, 0, 0, 1)})
@@ -479,7 +554,7 @@ func (c *wclient) transportHeader(track int) (string, error) {
 // registered (FLV family).
 func (c *wclient) attach(s *srv.Server, path string) error {
 	switch c.pl.Kind {
-	case "tcp", "udp", "ws":
+	case "tcp", "udp", "mcast", "ws":
 		return c.attachRTSP(s, path)
 	case "wsp":
 		return c.attachWSP(s, path)
@@ -536,8 +611,24 @@ func (c *wclient) attachRTSP(s *srv.Server, path string) (err error) {
 		if err != nil {
 			return err
 		}
-		if _, err := do("SETUP", rtspc.TrackURL(base, ctl[tr].Control), map[string]string{"Transport": th}); err != nil {
+		r, err := do("SETUP", rtspc.TrackURL(base, ctl[tr].Control), map[string]string{"Transport": th})
+		if err != nil {
 			return err
+		}
+		if c.pl.Kind == "mcast" {
+			// join before PLAY: nothing sent to the group after the PLAY answer can be missed
+			group, rtp, rtcp, err := rtspc.MulticastTarget(r.Get("Transport"))
+			if err != nil {
+				return err
+			}
+			if c.udp[2*tr], err = rtspc.JoinMulticast(group, rtp); err != nil {
+				return err
+			}
+			if !c.pl.NoRTCP && rtcp > 0 {
+				if c.udp[2*tr+1], err = rtspc.JoinMulticast(group, rtcp); err != nil {
+					return err
+				}
+			}
 		}
 	}
 	if _, err := do("PLAY", url, map[string]string{"Range": "npt=0.000-"}); err != nil {
@@ -753,7 +844,7 @@ func (c *wclient) poll() {
 				c.problem = fmt.Sprintf("unsolicited response after PLAY: %q", it.Response.Raw)
 			}
 		}
-	case "udp":
+	case "udp", "mcast":
 		buf := make([]byte, 70000)
 		for ch, u := range c.udp {
 			if u == nil {
@@ -829,7 +920,7 @@ func (c *wclient) leave(s *srv.Server, path string, teardown bool) {
 	c.left = true
 	if teardown {
 		switch c.pl.Kind {
-		case "tcp", "udp", "ws":
+		case "tcp", "udp", "mcast", "ws":
 			if c.rc != nil {
 				c.tornDown = true
 				c.rc.Send(c.rc.Build("TEARDOWN", s.RTSP(path), nil, nil))
@@ -1103,7 +1194,7 @@ func judgeWire(t evid.TB, pl *wplan, c *wclient, detail func(map[string]any) map
 	inv := map[int]byte{}
 	for ch := byte(0); ch < 4; ch++ {
 		if c.subscribed(ch) {
-			if c.pl.Kind == "udp" {
+			if c.datagram() {
 				inv[int(ch)] = ch
 			} else {
 				inv[c.pl.Chans[ch]] = ch
@@ -1146,7 +1237,7 @@ func judgeWire(t evid.TB, pl *wplan, c *wclient, detail func(map[string]any) map
 		}
 		seenIdx[i] = true
 		if !l.pkts[i].PS {
-			if c.pl.Kind == "udp" { // datagrams to different ports have no order among each other
+			if c.datagram() { // datagrams to different ports have no order among each other
 				if p, ok := lastPerCh[it.Ch]; ok && i < p {
 					evid.Violation(t, "wire-order", detail(map[string]any{"client": c.id, "received": append(res.rtp, i)}), "%s received packet %d after packet %d on the same port", who, i, p)
 				}
@@ -1177,7 +1268,7 @@ func judgeWire(t evid.TB, pl *wplan, c *wclient, detail func(map[string]any) map
 			got = append(got, i)
 		}
 	}
-	if c.pl.Kind == "udp" {
+	if c.datagram() {
 		sort.Ints(got) // order was judged per port above
 	}
 	if !equal(got, must) {
@@ -1365,6 +1456,30 @@ func wireClassify(pl *wplan) {
 			evid.Class("wire: audience client leaves by " + how)
 		}
 	}
+	if mc := 0; true {
+		for _, c := range pl.Clients {
+			if c.Kind == "mcast" {
+				mc++
+			}
+		}
+		if mc >= 2 {
+			evid.Class("wire: >=2 multicast members share one proxy")
+			first, firstAt, lastAttach := -1, 1<<30, -1
+			for i, c := range pl.Clients {
+				if c.Kind == "mcast" {
+					if c.AttachAt < firstAt {
+						first, firstAt = i, c.AttachAt
+					}
+					if c.AttachAt > lastAttach {
+						lastAttach = c.AttachAt
+					}
+				}
+			}
+			if d := pl.Clients[first].DetachAt; d > lastAttach {
+				evid.Class("wire: the member that started the proxy leaves while another member stays")
+			}
+		}
+	}
 	evid.Class("wire: target over " + pl.Clients[0].Kind)
 	evid.Class("wire: publisher " + pl.Publisher)
 	evid.Class(fmt.Sprintf("wire: codec=%s audio=%v cache_gop=%v", pl.Codec, pl.Audio, pl.CacheGop))
@@ -1398,7 +1513,7 @@ func TestWireFanout(t *testing.T) {
 				// the client attaches: only the part from the attach point on is comparable
 				a, b = fromAttach(pl, tg, a), fromAttach(pl, tg, b)
 			}
-			if tg.Kind == "udp" {
+			if tg.Kind == "udp" || tg.Kind == "mcast" {
 				a, b = append([]int(nil), a...), append([]int(nil), b...)
 				sort.Ints(a)
 				sort.Ints(b)
@@ -1434,20 +1549,35 @@ func fromAttach(pl *wplan, c wclientPlan, l []int) []int {
 func TestWirePlayAnswerThenPublish(t *testing.T) {
 	s := wireStart()
 	s.SetCacheGop(false)
-	for _, kind := range []string{"tcp", "ws", "udp", "wsp"} {
+	kinds := []string{"tcp", "ws", "udp", "wsp"}
+	if wireMulticast() {
+		kinds = append(kinds, "mcast") // first member: its PLAY starts the proxy
+	}
+	for _, kind := range kinds {
 		missed := 0
 		const rounds = 25
 		for r := 0; r < rounds; r++ {
 			l := &wlog{cdc: esgen.H264, vseq: 10, vts: 1000, vssrc: 77}
 			first := l.extraPacket() // tagged like a sentinel, published first
 			path := fmt.Sprintf("/c01w/w%d", atomic.AddUint64(&wireCases, 1))
-			st := srv.PublishStream(path, mediah.SDP(esgen.H264, false))
+			pub := &wpublisher{}
+			if kind == "mcast" { // only a RECORD-published stream has a multicast proxy
+				rc, err := rtspc.Dial(s.Addr(), wireBound)
+				if err != nil {
+					t.Fatalf("machinery: publisher dial: %v", err)
+				}
+				if _, err := rc.Record(s.RTSP(path), mediah.SDP(esgen.H264, false)); err != nil {
+					t.Fatalf("machinery: RECORD dialogue: %v", err)
+				}
+				pub.rec = rc
+			} else {
+				pub.direct = srv.PublishStream(path, mediah.SDP(esgen.H264, false))
+			}
 			c := &wclient{pl: wclientPlan{Kind: kind, DetachAt: -1, Chans: [4]int{0, 1, 2, 3}}}
 			if err := c.attach(s, path); err != nil {
-				srv.Unpublish(st)
+				pub.close()
 				t.Fatalf("machinery: %s attach: %v", kind, err)
 			}
-			pub := &wpublisher{direct: st}
 			pub.publish(first)
 			ok := false
 			deadline := time.Now().Add(wireBound)
@@ -1468,7 +1598,7 @@ func TestWirePlayAnswerThenPublish(t *testing.T) {
 				time.Sleep(time.Millisecond)
 			}
 			c.leave(s, path, false)
-			srv.Unpublish(st)
+			pub.close()
 			evid.Eval(1)
 			if !ok {
 				missed++
